@@ -677,6 +677,50 @@ def l2cap_pdu(cid, payload: bytes, with_fcs=False) -> bytes:
     return body
 
 
+# L2CAP configuration parameter options (Vol 3 Part A 5): a list of (type octet, length octet, value). Bit 7 of the type
+# octet is the "hint" flag; it is PART of the octet on the wire, so a list of options is a codec of its own in which
+# every one of the 256 type octets is a distinct value.
+CFG_OPTION_NAMES = {1: 'mtu', 2: 'flush-timeout', 3: 'qos', 4: 'retransmission-and-flow-control', 5: 'fcs',
+                    6: 'extended-flow-spec', 7: 'extended-window-size'}
+CFG_OPTION_LENGTHS = {1: 2, 2: 2, 3: 22, 4: 9, 5: 1, 6: 16, 7: 2}
+
+
+def cfg_options(options) -> bytes:
+    """[(type 0..255, value of 0..255 octets)] -> octets"""
+    out = bytearray()
+    for t, v in options:
+        assert 0 <= t <= 0xFF and len(v) <= 0xFF
+        out.append(t)
+        out.append(len(v))
+        out += v
+    return bytes(out)
+
+
+def cfg_options_parse(data: bytes):
+    out, i = [], 0
+    while i < len(data):
+        t, n = data[i], data[i + 1]
+        assert i + 2 + n <= len(data)
+        out.append((t, bytes(data[i + 2:i + 2 + n])))
+        i += 2 + n
+    return out
+
+
+def cfg_type_class(t: int) -> str:
+    base = CFG_OPTION_NAMES.get(t & 0x7F, 'undefined-type')
+    return ('hint-bit-set/' if t & 0x80 else 'hint-bit-clear/') + base
+
+
+def l2cap_configure_request(identifier, dcid, flags, options: bytes) -> bytes:
+    """code 0x04 | identifier | length U16 LE | destination CID | flags | options"""
+    return struct.pack('<BBHHH', 0x04, identifier, 4 + len(options), dcid, flags) + options
+
+
+def l2cap_configure_response(identifier, scid, flags, result, options: bytes) -> bytes:
+    """code 0x05 | identifier | length U16 LE | source CID | flags | result | options"""
+    return struct.pack('<BBHHHH', 0x05, identifier, 6 + len(options), scid, flags, result) + options
+
+
 def ertm_i(tx_seq, req_seq, sar, final) -> bytes:
     """Enhanced control field, I-frame (Vol 3 Part A 3.3.2): bit0=0, TxSeq 1..6, F 7,
     ReqSeq 8..13, SAR 14..15; transmitted little endian."""
